@@ -23,7 +23,7 @@ MANIFEST = {
     'technique': 'runtime monitoring: single-fault injection at the model level with a rule->exception-class oracle and a control run',
 }
 LEVEL = 'fault_enumeration'
-BUDGET = {'quick': 40, 'thorough': 360}
+BUDGET = {'quick': 60, 'thorough': 360}
 RULE = ('(host document, rule, injection variant, style seed); rules x variants enumerated round-robin over seeded random hosts; '
         'distinct by text hash; non-trivial = the host has at least two tables or a reference')
 ASSUMPTIONS = ['the host without the injection parses (checked per case; otherwise the case is discarded and counted)',
